@@ -208,6 +208,25 @@ func (c *runCtx) craftedStates(r *c19Repo) []craftState {
 		id := id
 		add("object-removed."+craftKind(r, id), func(root string) { os.Remove(filepath.Join(root, "objects", id[:2], id[2:])) })
 	}
+	// two files damaged at once: the object files of two valid objects exchanged (both directions), e.g. two sibling
+	// sub-trees; all pairs among trees and commits, the other pairs in the thorough tier
+	kinds := map[string]string{}
+	for _, id := range r.objects {
+		kinds[id] = craftKind(r, id)
+	}
+	for i, a := range r.objects {
+		for _, b := range r.objects[i+1:] {
+			a, b := a, b
+			if !c.thorough() && (kinds[a] == "blob" || kinds[b] == "blob") && (i+len(b))%5 != 0 {
+				continue
+			}
+			add(fmt.Sprintf("swapped-pair.%s-%s.%s.%s", kinds[a], kinds[b], a[:6], b[:6]), func(root string) {
+				pa, pb := filepath.Join(root, "objects", a[:2], a[2:]), filepath.Join(root, "objects", b[:2], b[2:])
+				os.WriteFile(pa, r.files[filepath.Join("objects", b[:2], b[2:])], 0o666)
+				os.WriteFile(pb, r.files[filepath.Join("objects", a[:2], a[2:])], 0o666)
+			})
+		}
+	}
 	// the states were partly built from maps: every shard must see them in the same order
 	sort.Slice(out, func(i, j int) bool { return out[i].name < out[j].name })
 	return out
@@ -259,9 +278,26 @@ func (c *runCtx) craftedC19(r *c19Repo, mine func() bool, cmds, modCmds [][]stri
 		})
 		all := append(append([][]string{}, cmds...), modCmds...)
 		all = append(all, []string{"log", "-n", "2"}, []string{"reset", "--mixed", "HEAD@{1}"}, []string{"restore", "."}, []string{"restore", "--staged", "."}, []string{"add", "."}, []string{"rm", "dir"}, []string{"commit", "-m", "after crafted"})
+		if strings.HasPrefix(st.name, "swapped-pair.") {
+			// every object as a cat-file argument as well: the damaged ones are then decoded directly
+			for _, id := range r.objects {
+				if strings.Contains(st.name, id[:6]) {
+					all = append(all, []string{"cat-file", "-p", id}, []string{"cat-file", "-t", id})
+				}
+			}
+			for _, id := range r.objects {
+				if k := craftKind(r, id); k == "tree" || k == "commit" {
+					all = append(all, []string{"cat-file", "-p", id})
+				}
+			}
+		}
+		hangs := 0
 		for i, cmd := range all {
+			if hangs >= 2 {
+				break // each hang costs its whole time limit; two witnesses per state are enough
+			}
 			dir := stateDir
-			if i >= len(cmds) {
+			if i >= len(cmds) && cmd[0] != "cat-file" && cmd[0] != "log" {
 				os.RemoveAll(runDir)
 				copyTree(stateDir, runDir)
 				dir = runDir
@@ -275,7 +311,14 @@ func (c *runCtx) craftedC19(r *c19Repo, mine func() bool, cmds, modCmds [][]stri
 			if j := strings.Index(kind, "."); j > 0 {
 				kind = kind[:j]
 			}
-			c.class("crafted|" + cmd[0] + "|" + st.name + "|" + fmt.Sprint(code))
+			if code == 124 {
+				hangs++
+			}
+			cls := st.name
+			if strings.HasPrefix(cls, "swapped-pair.") {
+				cls = strings.Join(strings.Split(cls, ".")[:2], ".")
+			}
+			c.class("crafted|" + cmd[0] + "|" + cls + "|" + fmt.Sprint(code))
 			if strings.Contains(out, "panic: ") || strings.Contains(out, "goroutine 1 [") || strings.Contains(out, "fatal error: ") || (code != 0 && code != 1) {
 				line := ""
 				for _, ln := range strings.Split(out, "\n") {
